@@ -75,7 +75,9 @@ int main(int argc, char ** argv)
   while (std::getline(in, line)) {
     std::istringstream ls(line);
     std::string kind, name;
-    ls >> kind >> name;
+    ls >> kind;
+    if (line.size() < 3) continue;
+    name = line.substr(2); // the rest of the line, leading blanks included (they are part of the candidate)
     if (name.empty()) continue;
     bool dbd = kind == "D";
     std::string why;
